@@ -73,9 +73,10 @@ def canon(ch, crys):
 
 
 def run(ctx):
-    pairs = [('sq2d', 1), ('fcc', 1), ('honey2d', 1), ('rect2d-2site', 1)] if ctx.quick else \
+    # (sc, 2) and (bcc, 2): thermodynamic stars that are not contiguous in the kinetic star list (thermo2kin = [1,2,4], [1,2,3,5])
+    pairs = [('sq2d', 1), ('fcc', 1), ('honey2d', 1), ('rect2d-2site', 1), ('sc', 2), ('bcc', 2)] if ctx.quick else \
             [('sq2d', 1), ('sq2d', 2), ('tri2d', 1), ('tri2d', 2), ('fcc', 1), ('fcc', 2), ('bcc', 1), ('honey2d', 1), ('honey2d', 2),
-             ('hcp', 1), ('rect2d-2site', 1), ('rect2d-2site', 2), ('rumpled', 1), ('twoW', 1)]
+             ('hcp', 1), ('rect2d-2site', 1), ('rect2d-2site', 2), ('rumpled', 1), ('twoW', 1), ('sc', 2), ('bcc', 2), ('sc', 1), ('omegaR', 1)]
     for name, N in pairs:
         small, big = vc.calculator(name, N), vc.calculator(name, N + 1)
         for t in range(2 if ctx.quick else 3):
